@@ -123,8 +123,12 @@ def run(ctx, rep):
     else:
         sel = any(render(x).endswith('.encryptor') and vals == [1] for x, vals, _ in discr_literals_at(lb, dec[0].bb))
         before = fb_[0].bb in lb.reachable(dec[0].bb) and dec[0].bb not in lb.reachable(fb_[0].bb, avoid_blocks={c.bb for c in lb.calls if c.name.split('::')[-1] == 'read_u64_le'})
-        prop = bool(failure_edge_blocks(lb, dec[0]))
-        rep.ob('R19.c', LOADE, 'decrypt before decode, errors propagated', sel and before and prop, dec[0].where(), None if sel and before and prop else 'load does not decrypt (under Some(encryptor)) before decoding, or drops the decrypt error')
+        heads = {c.bb for c in lb.calls if c.name.split('::')[-1] == 'read_u64_le'}
+        fe = failure_edge_blocks(lb, dec[0])
+        errx = {eb for eb, _ in err_exit_sites(lb)}
+        okx = strict_ok_exit_blocks(lb)
+        prop = bool(fe) and all(errx & lb.reachable(x, avoid_blocks=heads) for x in fe) and not any(okx & lb.reachable(x, avoid_blocks=heads) for x in fe)
+        rep.ob('R19.c', LOADE, 'decrypt before decode, errors propagated', sel and before and prop, dec[0].where(), None if sel and before and prop else 'load does not decrypt (under Some(encryptor)) before decoding, or an undecryptable entry does not fail the load (it is skipped / ends the load successfully)')
 
     rep.rule('R19.d', 'nothing else writes data files: file-writing APIs are called only from the listed storage modules', floor=10, analysis='A1')
     WR = ('tokio::io::AsyncWriteExt::write_all', 'tokio::io::AsyncWriteExt::write', 'tokio::io::AsyncWriteExt::write_vectored', 'tokio::io::AsyncWriteExt::write_all_buf', 'tokio::io::AsyncWriteExt::write_u32_le',
